@@ -17,6 +17,8 @@
 EXTENDS Integers, Sequences, TLC
 
 Provs == {"elem", "mapent", "scall", "gocall", "paren", "tern", "nilco"}
+\* the value read out of a NAMED container that stays reachable (hl_<v> = [<v>], hm_<v> = {"k": <v>}); only directly on the variable
+NamedProvs == {"nelem", "nmapent"}
 
 Hop(p, s) == CASE p = "elem"   -> "[" \o s \o "][0]"
                [] p = "mapent" -> "{\"k\": " \o s \o "}[\"k\"]"
@@ -25,12 +27,15 @@ Hop(p, s) == CASE p = "elem"   -> "[" \o s \o "][0]"
                [] p = "paren"  -> "(" \o s \o ")"
                [] p = "tern"   -> "(true ? " \o s \o " : nil)"
                [] p = "nilco"  -> "(" \o s \o " ?? nil)"
+               [] p = "nelem"  -> "hl_" \o s \o "[0]"
+               [] p = "nmapent" -> "hm_" \o s \o ".k"
 
 RECURSIVE Apply(_, _, _)
 Apply(chain, i, s) == IF i > Len(chain) THEN s ELSE Apply(chain, i + 1, Hop(chain[i], s))
 Operand(var, chain) == Apply(chain, 1, var)
 
 ChainsUpTo(n) == UNION {[1..k -> Provs] : k \in 0..n}
+                 \cup {<<q>> \o ch : q \in NamedProvs, ch \in UNION {[1..k -> Provs] : k \in 0..(n - 1)}}
 
 \* the law, on one observation: the outcome with the chain equals the outcome with the bare variable
 Law(o) == o.got = o.base
